@@ -91,6 +91,11 @@ func vfE3HOFrame(c net.Conn, d time.Duration) (int32, []byte, error) {
 	return int32(binary.BigEndian.Uint32(hdr[4:])), data, nil
 }
 
+func vfE3HOTimeout(err error) bool {
+	ne, ok := err.(net.Error)
+	return ok && ne.Timeout()
+}
+
 // vfE3HOStatsDoc is what /stats?format=json shows of connections.
 type vfE3HOStatsDoc struct {
 	Topics []struct {
@@ -296,8 +301,8 @@ func TestVerifE3HalfOpen(t *testing.T) {
 				ft, data, err := vfE3HOFrame(h.c, 20*time.Second)
 				if err != nil || ft != frameTypeError || string(data) != "E_BAD_PROTOCOL" {
 					g.fail("halfopen-complete", "round %d: wrong magic answered frame %d %q err=%v, expected E_BAD_PROTOCOL", round, ft, data, err)
-				} else if _, _, err := vfE3HOFrame(h.c, 20*time.Second); err == nil {
-					g.fail("halfopen-complete", "round %d: connection still open after E_BAD_PROTOCOL", round)
+				} else if _, _, err := vfE3HOFrame(h.c, 20*time.Second); err == nil || vfE3HOTimeout(err) {
+					g.fail("halfopen-complete", "round %d: connection still open after E_BAD_PROTOCOL (%v)", round, err)
 				} else {
 					g.hist["complete:c-refused"]++
 				}
